@@ -11,7 +11,7 @@ def run(tier):
     q = tier == "quick"
     to = 900 if q else 3000
     conds = []
-    for spec, nch in (("dep", 4), ("twice", 6), ("nested", 2)):
+    for spec, nch in (("dep", 4), ("twice", 4), ("nested", 2)):
         env = {"H_SPEC": spec, "H_CHOICES": str(nch)}
         conds.append(Cond("h_generators.py", "fields_follow_generators", to, path_timeout=to / 2, env=env))
         for which in range(3 if q else 6):
